@@ -62,6 +62,21 @@ class BfsProp(core.Prop):
                 state = self.rebuild(seedrec, hist)
         return out
 
+    def replay(self, doc):
+        """straight-line re-run of one recorded history (no explorer)"""
+        case = doc['case']
+        seedrec, hist = case['seed'], case['hist']
+        try:
+            if not hist:
+                state = self.build_seed(seedrec)
+                vs = self.check_state(state, seedrec, hist)
+                return result('viol' if vs else 'ok', vs, [], 0), None
+            state = self.rebuild(seedrec, hist[:-1])
+            r = self.step(state, seedrec, hist[:-1], hist[-1])
+            return result(r['outcome'], r['viol'], [], r.get('trans', 1)), None
+        except BaseException:
+            return None, traceback.format_exc()
+
     def rebuild(self, seedrec, hist):
         s = self.build_seed(seedrec)
         for op in hist:
